@@ -243,7 +243,21 @@ def kani_bitkernels(prop, tier, seed):
 
 @register('kani_fresh_label')
 def kani_fresh_label(prop, tier, seed):
-    return _kani(['fresh_label_increasing'], 'kani_fresh_label', False)
+    # mechanical extraction of the real file for the inductive harness: only `//!` module doc lines are dropped
+    src = '/repo/lang/axcut2backend/src/fresh_labels.rs'
+    try:
+        text = open(src).read()
+    except OSError as e:
+        raise InfraError('fresh_labels.rs not found (anchor lost): %s' % e)
+    if 'fn fresh_label' not in text or 'COUNTER' not in text:
+        raise InfraError('fresh_labels.rs no longer defines fresh_label/COUNTER (anchor lost)')
+    out = '\n'.join(l for l in text.split('\n') if not l.lstrip().startswith('//!'))
+    with open(os.path.join(KANI, 'src', 'fresh_labels_extracted.rs'), 'w') as f:
+        f.write(out)
+    r = _kani(['fresh_label_increasing', 'fresh_label_inductive'], 'kani_fresh_label', True)
+    r.bound = 'fresh_label: one call from an ARBITRARY counter value below usize::MAX (inductive step, complete) + 4 consecutive calls of the linked crate from the initial value'
+    r.assumptions.append('the counter does not wrap (fewer than 2^64 labels); the inductive harness runs the text of fresh_labels.rs included into the harness crate (module doc lines dropped)')
+    return r
 
 
 EMITTER_NAMES = ['add', 'sub', 'mul', 'div', 'rem', 'mov', 'load_immediate', 'load_label', 'add_and_jump', 'jump']
